@@ -126,14 +126,24 @@ def selected (cfg : Config) (w : World) (i : Nat) (a : Action) : Bool :=
   expired cfg w.now a &&
   (!queryLimitApplied || cfg.batchSize == 0 || decide (rankBefore (expired cfg w.now) w.actions i < cfg.batchSize))
 
+/-- the task / workflow lookup of the pass fails for this action (DBEntityNotFoundError): the rows
+    are gone; before the lookup was guarded by `if action_ex.task_execution_id` this was also the
+    case of every action execution without a task -/
+def lookupFails (a : Action) : Bool :=
+  if checkerGuardsTaskLookup then a.task.isSome && !a.hasParent else !a.hasParent
+
+/-- the action is *broken*: the pass cannot process it (its parent rows are gone, or its definition
+    cannot be found any more) -/
+def broken (a : Action) : Bool := lookupFails a || !a.defKnown
+
 /-- processing this selected action lets an exception escape `handle_expired_actions`
     (the transaction of the whole pass is rolled back) -/
 def poison (a : Action) : Bool :=
-  (!a.hasParent && !checkerSkipsMissingParent) ||
-  (a.hasParent && !a.defKnown && !checkerCatchesCompleteErrors)
+  (lookupFails a && !checkerSkipsMissingParent) ||
+  (!lookupFails a && !a.defKnown && !checkerCatchesCompleteErrors)
 
 /-- the selected action is completed with the heartbeat error -/
-def processable (a : Action) : Bool := a.hasParent && a.defKnown
+def processable (a : Action) : Bool := !broken a
 
 def passAborts (cfg : Config) (w : World) : Bool :=
   (w.actions.zipIdx.any fun (a, i) => selected cfg w i a && poison a)
